@@ -530,7 +530,7 @@ SPEC = {
     'rule': ('histories: a pool of MPS/MPO objects of one model (XXZ, spin-1 XXZ, Bose-Hubbard d=3, Fermi-Hubbard with encoded charge pairs, Ising) '
              'is driven through 3..12 (quick) / 3..30 (thorough) random public operations: construct (random sector states, scalar fill, '
              'from_vector), orthonormalize, compress, +/-, apply_operator, split+merge of a tensor pair, one-/two-site TDVP, one-/two-site DMRG, '
-             'zero_qnumbers, MPO +/-/@, MPO orthonormalize, MPO constructors (models, identity, scalar fill, from_opgraph of random charged chain lists). '
+             'zero_qnumbers, MPO +/-/@, (TDVP / DMRG in every fourth call with the operator in a shifted or zeroed but equally valid labelling) MPO orthonormalize, MPO constructors (models, identity, scalar fill, from_opgraph of random charged chain lists). '
              'constructors: MPS / MPO built in every documented way (int / float / complex / zero / default fill, random with and without generator, quantum numbers as arrays / lists / tuples) followed by 1-3 operations. '
              'After every step the class invariant is evaluated on every live object and every object is compared with its shadow dense model. '
              'distinct = distinct operation sequences; non-trivial = >= 3 steps, >= 2 operation kinds, a non-zero state in the pool.'),
